@@ -6,6 +6,13 @@ emitted function translated fail-closed into MC.Syntax terms, Coq decides `emitt
 Strengthening round 1: sequence packs (functions holding 2-4 calls with other statements, function calls, execute-wrapped
 calls, if / while blocks in between; class methods; statements outside any function): the text of every function and
 block must be the concatenation of the model's text of each item, and the whole function is run in mcvm.
+Triage round (argument spellings): the probes enumerate how the arguments can be written (STYLES: positional, keyword in both
+orders, positional min + keyword max, `min=` only, `max=` only, one positional, none; literals plain / sign as a separate token /
+leading zeros / through a `#define` macro of the header) over a matrix of operand-kind combinations inside the quantifier, inline
+and execute-wrapped.  The model term does not depend on the spelling: every spelling must give the model's text (Coq) and all
+spellings of one call the same text (python, replay kind `spelling-differs`).  Constant ranges wider than 2^31-1 values are outside
+the property's quantifier: nothing is asserted, what the tree does is recorded (`outside_quantifier_probes`).
+Identical (model term, emitted text) cases are evaluated once; the case file is sharded (coq/Gen/C20/MathEmitted_<k>.v).
 """
 from __future__ import annotations
 
@@ -60,24 +67,87 @@ def opnd(kind, v=None):
     return (kind, v)
 
 
+# Spellings of the argument list.  The model term `random_code nm ex target lo hi` (effective defaults 1 / 2147483647) does not
+# depend on how the arguments are written, so every spelling of the same call must give the same text.
+#   layout : pos `lo, hi` | kw `min=lo, max=hi` | kwrev `max=hi, min=lo` | mixed `lo, max=hi`
+#            | minonly `min=lo` (max = 2147483647) | maxonly `max=hi` (min = 1) | pos1 `lo` (max = 2147483647) | empty `` (1, 2147483647)
+#   literal: plain `-5` | blank `- 5` / `+ 5` (the sign is a token of its own) | zeros `-005` / `005` | macro (`#define KN5 -5` in the header)
+STYLES = {
+    "pos": ("pos", "plain"), "kw": ("kw", "plain"), "kwrev": ("kwrev", "plain"), "mixed": ("mixed", "plain"),
+    "minonly": ("minonly", "plain"), "maxonly": ("maxonly", "plain"), "pos1": ("pos1", "plain"), "empty": ("empty", "plain"),
+    "blank": ("pos", "blank"), "kwblank": ("kwrev", "blank"), "zeros": ("pos", "zeros"), "kwzeros": ("kw", "zeros"),
+    "macro": ("pos", "macro"), "macrokw": ("kwrev", "macro"), "mixedmacro": ("mixed", "macro"),
+    "minonlyblank": ("minonly", "blank"), "maxonlymacro": ("maxonly", "macro"), "pos1zeros": ("pos1", "zeros"),
+}
+
+
+def macro_name(z):
+    return f"KN{-z}" if z < 0 else f"KP{z}"
+
+
+def lit_text(z, lstyle):
+    if lstyle == "blank":
+        return f"- {-z}" if z < 0 else f"+ {z}"
+    if lstyle == "zeros":
+        return f"-00{-z}" if z < 0 else f"00{z}"
+    if lstyle == "macro":
+        return macro_name(z)
+    return str(z)
+
+
+def style_applies(style, lo, hi):
+    """lo, hi: effective operands (no defaults).  A literal form needs a literal it spells; the short layouts need the default value."""
+    layout, lstyle = STYLES[style]
+    if layout in ("minonly", "pos1", "empty") and hi != ("lit", INT_MAX):
+        return False
+    if layout in ("maxonly", "empty") and lo != ("lit", 1):
+        return False
+    shown = ([lo] if layout not in ("maxonly", "empty") else []) + ([hi] if layout in ("pos", "kw", "kwrev", "mixed", "maxonly") else [])
+    if lstyle != "plain" and not any(o[0] == "lit" for o in shown):
+        return False
+    return True
+
+
 def random_args_text(p):
-    """source text of the argument list; `style` chooses positional / keyword / default forms"""
-    lo, hi, style = p["lo"], p["hi"], p.get("style", "pos")
+    """source text of the argument list; `style` chooses the spelling (layout x literal form); operands may be ("default", None)
+    with the styles pos / kw (they are then simply left out)"""
+    lo, hi, style = tuple(p["lo"]), tuple(p["hi"]), p.get("style", "pos")
+    layout, lstyle = STYLES[style]
     def txt(o):
-        return str(o[1])
-    if style == "pos":
-        if lo[0] == "default" and hi[0] == "default":
-            return ""
-        if hi[0] == "default":
-            return txt(lo)
-        assert lo[0] != "default"
-        return f"{txt(lo)}, {txt(hi)}"
-    parts = []
-    if lo[0] != "default":
-        parts.append(f"min={txt(lo)}")
-    if hi[0] != "default":
-        parts.append(f"max={txt(hi)}")
-    return ", ".join(parts)
+        return lit_text(o[1], lstyle) if o[0] == "lit" else str(o[1])
+    if lo[0] == "default" or hi[0] == "default":
+        assert lstyle == "plain" and layout in ("pos", "kw")
+        if layout == "pos":
+            assert hi[0] == "default"
+            return "" if lo[0] == "default" else txt(lo)
+        return ", ".join(([f"min={txt(lo)}"] if lo[0] != "default" else []) + ([f"max={txt(hi)}"] if hi[0] != "default" else []))
+    assert style_applies(style, lo, hi), (style, lo, hi)
+    return {"pos": f"{txt(lo)}, {txt(hi)}", "kw": f"min={txt(lo)}, max={txt(hi)}", "kwrev": f"max={txt(hi)}, min={txt(lo)}",
+            "mixed": f"{txt(lo)}, max={txt(hi)}", "minonly": f"min={txt(lo)}", "maxonly": f"max={txt(hi)}", "pos1": txt(lo),
+            "empty": ""}[layout]
+
+
+def probe_header(p):
+    """the `#define` lines the probe's spelling needs (macro forms), as a set"""
+    if p["kind"] != "random" or STYLES[p.get("style", "pos")][1] != "macro":
+        return set()
+    return {f"#define {macro_name(o[1])} {o[1]}" for o in (p["lo"], p["hi"]) if o[0] == "lit"}
+
+
+def items_header(items):
+    out = set()
+    for it in items:
+        if it[0] == "call":
+            out |= probe_header(it[1])
+        elif it[0] in ("if", "while"):
+            out |= items_header(it[3])
+    return out
+
+
+def with_header(job, defs):
+    if defs:
+        job["header"] = "\n".join(sorted(defs)) + "\n"
+    return job
 
 
 def probe_stmt(p, cert):
@@ -85,6 +155,31 @@ def probe_stmt(p, cert):
     if p["kind"] == "sqrt":
         return f"{pre}{p['target']} = Math.sqrt({p['arg']});"
     return f"{pre}{p['target']} = Math.random({random_args_text(p)});"
+
+
+def matrix_combos(tier):
+    """representative operand combinations inside the property's quantifier (1 <= max-min+1 <= 2^31-1); EVERY applicable
+    spelling is applied to each of them, inline and execute-wrapped"""
+    L = lambda z: ("lit", z)
+    S = lambda s: ("score", s)
+    C = [  # const / const: INT_MIN..INT_MIN+k, INT_MAX-k..INT_MAX, negative, the defaults, the widest ranges
+        (L(INT_MIN), L(INT_MIN)), (L(INT_MIN), L(INT_MIN + 3)), (L(INT_MIN), L(-2)), (L(INT_MIN + 1), L(-1)),
+        (L(INT_MAX - 3), L(INT_MAX)), (L(INT_MAX), L(INT_MAX)), (L(1), L(INT_MAX)), (L(3), L(INT_MAX)), (L(1), L(10)),
+        (L(-9), L(-4)), (L(-5), L(9)), (L(0), L(0)), (L(0), L(INT_MAX - 1)),
+        # var / const
+        (S("$lo"), L(9)), (S("$lo"), L(-3)), (S("$lo"), L(INT_MAX)), (S("$lo"), L(INT_MIN + 2)), (S("$lo"), L(INT_MAX - 1)),
+        (S("obj:@s"), L(0)),
+        # const / var (INT_MIN and INT_MIN+1: the wrapped `-min+1` literal and the __int__ constant)
+        (L(INT_MIN), S("$hi")), (L(INT_MIN + 1), S("$hi")), (L(-7), S("$hi")), (L(1), S("$hi")), (L(0), S("$hi")),
+        (L(INT_MAX), S("$hi")), (L(7), S("obj2:@p")),
+        # var / var (also the target as an operand)
+        (S("$lo"), S("$hi")), (S("obj:@p"), S("obj2:@r")), (S("$a"), S("$hi")),
+    ]
+    if tier == "quick":
+        return C
+    return C + [(L(INT_MIN + 8), L(INT_MIN + 8)), (L(INT_MAX - 1), L(INT_MAX)), (L(2), L(INT_MAX)), (L(-1), L(INT_MAX - 2)),
+                (L(-2147483647), L(-2147483647)), (S("$lo"), L(0)), (S("$lo"), L(INT_MIN)), (S("$a"), L(INT_MAX)),
+                (L(-1), S("$hi")), (L(INT_MAX - 1), S("$hi")), (L(-2147483647), S("$a")), (S("$lo"), S("$a"))]
 
 
 def gen_probes(rng, tier):
@@ -131,11 +226,24 @@ def gen_probes(rng, tier):
         k = rng.choice([rng.randint(-60, 60), rng.randint(INT_MIN, INT_MAX)])
         rn("$a", S("$lo"), L(k), wrapped=rng.random() < 0.2)
         rn("$a", L(k), S("$hi"), wrapped=rng.random() < 0.2)
+    # spelling matrix: every applicable spelling x representative operand combinations x {inline, execute-wrapped}
+    for lo, hi in matrix_combos(tier):
+        for wrapped in (False, True):
+            for style in STYLES:
+                if style_applies(style, lo, hi):
+                    P.append(dict(kind="random", target="$a", lo=lo, hi=hi, wrapped=wrapped, style=style, matrix=True))
     return P
 
 
 ERROR_PROBES = [dict(kind="random", target="$a", lo=("lit", 5), hi=("lit", 3), wrapped=False, style="pos"),
-                dict(kind="random", target="$a", lo=("lit", -3), hi=("lit", -4), wrapped=False, style="kw")]
+                dict(kind="random", target="$a", lo=("lit", -3), hi=("lit", -4), wrapped=False, style="kw")] + \
+               [dict(kind="random", target="$a", lo=("lit", a), hi=("lit", b), wrapped=w, style=st)
+                for (a, b, w, st) in [(5, 3, False, "kwrev"), (5, 3, True, "mixed"), (-3, -4, False, "blank"), (-3, -4, False, "kwblank"),
+                                      (9, -9, False, "zeros"), (INT_MIN + 1, INT_MIN, False, "macro"), (INT_MAX, INT_MAX - 1, True, "macrokw"),
+                                      (2, 1, False, "kwzeros"),
+                                      (INT_MIN + 1, INT_MIN, False, "pos")]] + \
+               [dict(kind="random", target="$a", lo=("lit", 1), hi=("lit", 0), wrapped=False, style="maxonly"),     # max=0 < default min 1
+                dict(kind="random", target="$a", lo=("lit", 1), hi=("lit", -5), wrapped=False, style="maxonlymacro")]
 
 
 def opnd_term(o, cert):
@@ -169,6 +277,27 @@ def model_term(p, ci, count):
 
 # ------------------------------------------------------------------ packs -> Coq cases
 
+class DefReg:
+    """names of the model terms: one `Definition En := get <term>.` per distinct term, shared by all packs, so that the case
+    terms of identical (model, emitted text) pairs are identical strings and are evaluated once"""
+
+    def __init__(self):
+        self.names, self.lines = {}, {}
+
+    def name(self, term):
+        n = self.names.get(term)
+        if n is None:
+            n = self.names[term] = f"E{len(self.names)}x"
+            self.lines[n] = f"Definition {n} := get {term}."
+        return n
+
+    def used_by(self, text):
+        return [self.lines[n] for n in sorted(set(re.findall(r"\bE\d+x\b", text)) & set(self.lines), key=lambda x: int(x[1:-1]))]
+
+
+DEFS = DefReg()
+
+
 def try_parse(text):
     try:
         return parse_function(text), None
@@ -193,8 +322,7 @@ def pack_cases(pack, res):
     kinds = set()
     model_ints = []
     for fname, p, count in pack["probes"]:
-        e = f"E_{pack['id']}_{fname}"
-        defs.append(f"Definition {e} := get {model_term(p, ci, count)}.")
+        e = DEFS.name(model_term(p, ci, count))
         kinds.add(p["kind"])
         text = fns.get(fname)
         nm_t = coq_str(f"{ns}:{fname}")
@@ -504,7 +632,25 @@ def seq_fixed():
     F.append([r16("$t0", wrapped=True), r16("$t1", wrapped=True), r16("$t2"), r16("$t3", wrapped=True)])
     F.append([R("$t0", _L(INT_MIN), _L(INT_MIN + 5)), ("fn", "h0"), R("$t1", _L(INT_MIN), _L(INT_MIN + 5)), R("$t2", _L(INT_MAX - 5), _L(INT_MAX))])
     F.append([R("obj:@s", _L(1), _L(6)), ("fn", "h0"), R("obj:@p", _L(1), _L(6)), R("obj:@s", _L(1), _L(6))])
+    # the same call spelled differently, side by side
+    F.append([R("$t0", _L(-5), _L(9)), R("$t1", _L(-5), _L(9), style="kwrev"), R("$t2", _L(-5), _L(9), style="blank"),
+              R("$t3", _L(-5), _L(9), style="macrokw", wrapped=True)])
+    F.append([R("$t0", _L(-7), _S("$hi"), style="kwblank"), ("fn", "h0"), R("$t1", _L(-7), _S("$hi"), style="macro"),
+              R("$t2", _L(-7), _S("$hi"), style="mixed"), R("$t3", _S("$lo"), _L(9), style="kwzeros")])
+    F.append([R("$t0", _L(3), _L(INT_MAX), style="minonly"), R("$t1", _L(3), _L(INT_MAX), style="pos1zeros"),
+              R("$t2", _L(1), _L(10), style="maxonly"), R("$t3", _L(1), _L(10), style="mixedmacro", wrapped=True)])
     return F
+
+
+def seq_style(rng, lo, hi):
+    """a spelling for a call of a sequence: half of the time plain positional, otherwise any applicable one"""
+    if lo[0] == "default" and hi[0] == "default":
+        return "pos"
+    if "default" in (lo[0], hi[0]):
+        return rng.choice(["pos", "kw"]) if hi[0] == "default" else "kw"
+    if rng.random() < 0.5:
+        return "pos"
+    return rng.choice([st for st in STYLES if style_applies(st, lo, hi)])
 
 
 def seq_random_call(rng, target, theme):
@@ -512,18 +658,20 @@ def seq_random_call(rng, target, theme):
     wrapped = rng.random() < 0.15
     if r < 0.45:
         lo, hi = theme
-        return R(target, lo, hi, wrapped=wrapped, style=rng.choice(["pos", "pos", "kw"]) if lo[0] != "default" or hi[0] != "default" else "pos")
+        return R(target, lo, hi, wrapped=wrapped, style=seq_style(rng, lo, hi))
     if r < 0.6:
         return Q(target, rng.choice(["$n", "$n", "$m", "obj:@s"]), wrapped=wrapped)
     kind = rng.randrange(4)
     if kind == 0:
         a = rng.choice([1, 0, -3, 5, rng.randint(-40, 40)])
-        return R(target, _L(a), _L(a + rng.choice([5, 5, 0, 99, rng.randint(0, 50)])), wrapped=wrapped)
-    if kind == 1:
-        return R(target, _S("$lo"), _L(rng.choice([9, 9, 5, 30])), wrapped=wrapped)
-    if kind == 2:
-        return R(target, _L(rng.choice([2, 2, 10, -7])), _S("$hi"), wrapped=wrapped)
-    return R(target, _S("$lo"), _S("$hi"), wrapped=wrapped)
+        lo, hi = _L(a), _L(a + rng.choice([5, 5, 0, 99, rng.randint(0, 50)]))
+    elif kind == 1:
+        lo, hi = _S("$lo"), _L(rng.choice([9, 9, 5, 30]))
+    elif kind == 2:
+        lo, hi = _L(rng.choice([2, 2, 10, -7])), _S("$hi")
+    else:
+        lo, hi = _S("$lo"), _S("$hi")
+    return R(target, lo, hi, wrapped=wrapped, style=seq_style(rng, lo, hi))
 
 
 def seq_random(rng):
@@ -640,9 +788,8 @@ class SeqModel:
                 if p["wrapped"]:
                     c = self.counts[p["kind"]]
                     self.counts[p["kind"]] += 1
-                e = f"E_{self.pid}_{self.ncalls}"
+                e = DEFS.name(model_term(p, self.ci, c))
                 self.ncalls += 1
-                self.defs.append(f"Definition {e} := get {model_term(p, self.ci, c)}.")
                 self.kinds.add(p["kind"])
                 self.ints.append(f"e_ints {e}")
                 parts.append(f"e_inline {e}")
@@ -871,15 +1018,76 @@ def _search(job):
 
 # ------------------------------------------------------------------ main
 
+# calls OUTSIDE the property's quantifier (constant bounds with max-min+1 > 2^31-1): nothing is asserted about them; what the
+# tree does with them (a `set … rng.bound` literal that is not a Java int / a diagnostic) is recorded in the evidence
+OUTSIDE_QUANTIFIER = ["0", "min=0", "0, 2147483647", "min=0, max=2147483647", "-2147483648, 5", "min=-2147483648, max=5",
+                      "max=5, min=-2147483648", "- 2147483648, 5", "-5, max=2147483647",
+                      "min=-2147483648", "-2147483648", "-2147483648, 2147483647", "max=2147483647, min=-1", "-2147483648, -1"]
+
+
+def outside_quantifier_report(results):
+    out = []
+    for args, res in zip(OUTSIDE_QUANTIFIER, results):
+        if not res["ok"]:
+            what = f"diagnostic {res.get('exc')}"
+        else:
+            text = functions_of(res["files"], NAMESPACES[0]).get("p", "")
+            nums = [int(x) for x in re.findall(r"(?<![\w.$@:])-?\d+(?![\w.])", text)]
+            bad = [n for n in nums if not INT_MIN <= n <= INT_MAX]
+            what = f"compiles; emits the non-int32 literal(s) {bad}" if bad else "compiles; every literal is int32"
+        out.append(dict(call=f"$a = Math.random({args});", result=what))
+    return out
+
+
+def spelling_groups(packs, results, jobs):
+    """metamorphic relation: single packs of Math.random probes with the same (names configuration, target, effective min, effective
+    max, wrapped) must emit identical function text whatever the spelling.  Returns (number of groups, number of members,
+    list of (reference member, differing member))"""
+    groups = {}
+    for pack, res, job in zip(packs, results, jobs):
+        if pack["single"] is None:
+            continue
+        _, p, _ = pack["probes"][0]
+        if p["kind"] != "random":
+            continue
+        ci = pack["ci"]
+        if res["ok"]:
+            fns = functions_of(res["files"], NAMESPACES[ci])
+            keys = ["p"] + ([f"{CERTS[ci]['PRIVATE']}/math_random/0"] if p["wrapped"] else [])
+            text = {k: fns.get(k, "<missing function>") for k in keys}
+        else:
+            text = {"<compile error>": str(res.get("exc"))}     # the message quotes the call: only the class is compared
+        key = (ci, p["target"], eff_lo(p), eff_hi(p), p["wrapped"])
+        groups.setdefault(key, []).append(dict(pack=pack, probe=p, job=job, text=text))
+    diffs = []
+    for key, members in groups.items():
+        if len(members) < 2:
+            continue
+        # reference: the majority text (ties: the first spelling)
+        cnt = {}
+        for m in members:
+            cnt.setdefault(json.dumps(m["text"], sort_keys=True), []).append(m)
+        ref = max(cnt.values(), key=len)[0]
+        for m in members:
+            if m["text"] != ref["text"]:
+                diffs.append((ref, m))
+    return len([g for g in groups.values() if len(g) > 1]), sum(len(g) for g in groups.values() if len(g) > 1), diffs
+
+
 def main(tier: str) -> int:
     ck = Check(PROP, tier)
     ck.cov["trusted_base"] = COMMON_TRUSTED + [
         "Model/MathFn.v: hand-written port of MathSqrt.call / MathRandom.call (_var_operation.py); tied to the current tree on "
-        "every run by term equality + print-back equality of every function the probe calls emit (coq/Gen/C20/MathEmitted.v)",
+        "every run by term equality + print-back equality of every function the probe calls emit (coq/Gen/C20/MathEmitted_*.v)",
         "c20_translate.py is NOT trusted: Coq checks that the translated terms print back to exactly the emitted text",
         "outside the model: how `execute ... run` decides is_execute (lexer_func_content.py), argument parsing of Math.random "
-        "(covered only through the probes: positional / keyword / default forms), the summon/data/kill lines of setup.mcfunction "
+        "(covered only through the probes, which enumerate the spellings: positional / keyword in both orders / positional+keyword / "
+        "`min=` only / `max=` only / one positional / none, literals written plainly, with the sign as a separate token, with leading "
+        "zeros and through a `#define` macro; all spellings of a call must give the model's text and the same text as each other), "
+        "the summon/data/kill lines of setup.mcfunction "
         "(COther: assumed not to touch scores other than through `store result`), Minecraft's recursion limit",
+        "calls outside the property's quantifier (constant bounds with max-min+1 > 2^31-1) are not asserted about; what the tree "
+        "does with a few of them is recorded under outside_quantifier_probes",
         "mcvm.py (untrusted Python VM) is used only to search for failing inputs on the real emitted text",
     ]
     pr = ck.proof(extra_targets=["Run/C20.vo"])
@@ -893,86 +1101,132 @@ def main(tier: str) -> int:
             ck.violation(dict(kind="coqchk-failed", log=out[-3000:]), no_input=True)
 
     probes = gen_probes(ck.rng, tier)
+    stride = 3 if tier == "quick" else 1       # part of the spelling matrix that also goes into the combined pack
     packs, jobs = [], []
     for ci, cert in enumerate(CERTS):
         # one pack per probe
         for pi, p in enumerate(probes):
             packs.append(dict(id=f"c{ci}p{pi}", ci=ci, probes=[("p", p, 0)], single=pi))
-            jobs.append(dict(src=f"function p() {{ {probe_stmt(p, cert)} }}", cert=cert_text(cert), namespace=NAMESPACES[ci]))
+            jobs.append(with_header(dict(src=f"function p() {{ {probe_stmt(p, cert)} }}", cert=cert_text(cert), namespace=NAMESPACES[ci]),
+                                    probe_header(p)))
         # one combined pack: wrapper numbering, shared functions created once
         counts = {"sqrt": 0, "random": 0}
-        plist, src = [], []
+        plist, src, hdr, nmx = [], [], set(), 0
         for pi, p in enumerate(probes):
+            if p.get("matrix"):
+                nmx += 1
+                if nmx % stride != ci % stride:
+                    continue
             c = 0
             if p["wrapped"]:
                 c = counts[p["kind"]]
                 counts[p["kind"]] += 1
             plist.append((f"p{pi}", p, c))
             src.append(f"function p{pi}() {{ {probe_stmt(p, cert)} }}")
+            hdr |= probe_header(p)
         packs.append(dict(id=f"c{ci}all", ci=ci, probes=plist, single=None))
-        jobs.append(dict(src="\n".join(src), cert=cert_text(cert), namespace=NAMESPACES[ci], timeout=60))
+        jobs.append(with_header(dict(src="\n".join(src), cert=cert_text(cert), namespace=NAMESPACES[ci], timeout=120), hdr))
     err_jobs = []
     for ci, cert in enumerate(CERTS):
         for p in ERROR_PROBES:
-            err_jobs.append((ci, p, dict(src=f"function p() {{ {probe_stmt(p, cert)} }}", cert=cert_text(cert),
-                                         namespace=NAMESPACES[ci])))
+            err_jobs.append((ci, p, with_header(dict(src=f"function p() {{ {probe_stmt(p, cert)} }}", cert=cert_text(cert),
+                                                     namespace=NAMESPACES[ci]), probe_header(p))))
     seq_orders = gen_seq_packs(ck.rng, tier)
     seq_packs, seq_jobs = [], []
     for ci, cert in enumerate(CERTS):
         for k, order in enumerate(seq_orders):
             seq_packs.append(dict(id=f"c{ci}q{k}", ci=ci, order=order))
-            seq_jobs.append(dict(src=seq_source(order, cert), cert=cert_text(cert), namespace=NAMESPACES[ci], timeout=60))
-    results = compile_batch(jobs + [j for _, _, j in err_jobs] + seq_jobs, chunk=40)
-    seq_results = results[len(jobs) + len(err_jobs):]
+            hdr = set()
+            for _, items in order:
+                hdr |= items_header(items)
+            seq_jobs.append(with_header(dict(src=seq_source(order, cert), cert=cert_text(cert), namespace=NAMESPACES[ci], timeout=60), hdr))
+    oq_jobs = [dict(src=f"function p() {{ $a = Math.random({a}); }}", cert=cert_text(CERTS[0]), namespace=NAMESPACES[0])
+               for a in OUTSIDE_QUANTIFIER]
+    results = compile_batch(jobs + [j for _, _, j in err_jobs] + seq_jobs + oq_jobs, chunk=40)
+    oq_results = results[len(jobs) + len(err_jobs) + len(seq_jobs):]
+    seq_results = results[len(jobs) + len(err_jobs):len(jobs) + len(err_jobs) + len(seq_jobs)]
     err_results = results[len(jobs):len(jobs) + len(err_jobs)]
     results = results[:len(jobs)]
+    ck.cov["outside_quantifier_probes"] = outside_quantifier_report(oq_results)
 
-    defs = [f"Definition nm{ci} := {names_term(ci)}." for ci in range(len(CERTS))]
+    # identical (model term, emitted text) pairs are identical case terms: evaluated once, counted once
     fcases, icases, echecks = [], [], []
-    pack_ints = {}
+    f_index, i_index, raw_cases = {}, {}, 0
+    not_compiling = set()
+
+    def add_cases(f, i):
+        nonlocal raw_cases
+        for term, d in f:
+            raw_cases += 1
+            if term not in f_index:
+                f_index[term] = len(fcases)
+                fcases.append((term, d))
+        for term, d in i:
+            raw_cases += 1
+            if term not in i_index:
+                i_index[term] = len(icases)
+                icases.append((term, d))
+
     for pack, res, job in zip(packs, results, jobs):
         if not res["ok"]:
             # the model says these probes compile: a compile error is a correspondence failure
             for fname, p, count in pack["probes"] if pack["single"] is not None else []:
                 echecks.append((f"err_ok {model_term(p, pack['ci'], count)} true",
-                                dict(pack=pack["id"], role="probe failed to compile", probe=job["src"], exc=res["exc"], msg=res["msg"][:300])))
+                                dict(pack=pack["id"], role="probe failed to compile", probe=job["src"], header=job.get("header"),
+                                     exc=res["exc"], msg=res["msg"][:300])))
+                nc_key = (p["kind"], res.get("exc"), p.get("lo", ("", ""))[0], p.get("hi", ("", ""))[0])
+                if nc_key not in not_compiling and len(not_compiling) < 3:
+                    not_compiling.add(nc_key)
+                    ck.violation(dict(kind="probe-does-not-compile", program=job["src"], header=job.get("header"),
+                                      jmc_txt=CERTS[pack["ci"]], namespace=NAMESPACES[pack["ci"]], statement=probe_stmt(p, CERTS[pack["ci"]]),
+                                      expected="compiles: the call is inside the property's quantifier (model: random_code / sqrt_code = Some ...)",
+                                      actual=f"{res.get('exc')}: {res.get('msg', '')[:300]}"))
             if pack["single"] is None:
                 echecks.append(("false", dict(pack=pack["id"], role="combined pack failed to compile", exc=res["exc"], msg=res["msg"][:300])))
             continue
         d, f, i, ints = pack_cases(pack, res)
-        defs += d
-        fcases += f
-        icases += i
-        pack_ints[pack["id"]] = ints
+        add_cases(f, i)
     for pack, res, job in zip(seq_packs, seq_results, seq_jobs):
         if not res["ok"]:
             echecks.append(("false", dict(pack=pack["id"], role="sequence pack failed to compile", program=job["src"],
-                                          exc=res["exc"], msg=res["msg"][:300])))
+                                          header=job.get("header"), exc=res["exc"], msg=res["msg"][:300])))
             continue
         d, f, i = seq_pack_cases(pack["id"], pack["ci"], pack["order"], res)
-        defs += d
-        fcases += f
-        icases += i
+        add_cases(f, i)
     for (ci, p, job), res in zip(err_jobs, err_results):
         failed = (not res["ok"]) and res.get("exc") == "JMCValueError"
         echecks.append((f"err_ok {model_term(p, ci, 0)} {'true' if failed else 'false'}",
-                        dict(role="error probe", probe=job["src"], result=("ok" if res["ok"] else res.get("exc")))))
+                        dict(role="error probe", probe=job["src"], header=job.get("header"), result=("ok" if res["ok"] else res.get("exc")))))
+    raw_cases += len(echecks)
 
-    body = (COQ_HEADER + "\n".join(defs) + "\n"
-            "Definition files : list fcase := [\n" + ";\n".join(t for t, _ in fcases) + "\n].\n"
-            "Eval vm_compute in file_mismatches files.\n"
-            "Definition intchecks : list bool := [\n" + ";\n".join(t for t, _ in icases) + "\n].\n"
-            "Eval vm_compute in bool_mismatches intchecks.\n"
-            "Definition errchecks : list bool := [\n" + ";\n".join(t for t, _ in echecks) + "\n].\n"
-            "Eval vm_compute in bool_mismatches errchecks.\n")
-    (ok, out), = run_coq_files(PROP, [("MathEmitted.v", body)], timeout=900)
+    nm_defs = [f"Definition nm{ci} := {names_term(ci)}." for ci in range(len(CERTS))]
+    per = 300
+    nshards = max(1, -(-len(fcases) // per))
+    iper = max(1, -(-len(icases) // nshards))
+    shards = []
+    for k in range(nshards):
+        fs = list(range(k * per, min(len(fcases), (k + 1) * per)))
+        is_ = list(range(k * iper, min(len(icases), (k + 1) * iper)))
+        es = list(range(len(echecks))) if k == 0 else []
+        terms = ("Definition files : list fcase := [\n" + ";\n".join(fcases[j][0] for j in fs) + "\n].\n"
+                 "Eval vm_compute in file_mismatches files.\n"
+                 "Definition intchecks : list bool := [\n" + ";\n".join(icases[j][0] for j in is_) + "\n].\n"
+                 "Eval vm_compute in bool_mismatches intchecks.\n"
+                 "Definition errchecks : list bool := [\n" + ";\n".join(echecks[j][0] for j in es) + "\n].\n"
+                 "Eval vm_compute in bool_mismatches errchecks.\n")
+        body = COQ_HEADER + "\n".join(nm_defs + DEFS.used_by(terms)) + "\n" + terms
+        shards.append((f"MathEmitted_{k}.v", body, fs, is_, es))
+    outs = run_coq_files(PROP, [(n, b) for n, b, _, _, _ in shards], timeout=900)
     bad_f, bad_i, bad_e = [], [], []
     coq_failed = None
-    if not ok:
-        coq_failed = out[-3000:]
-    else:
+    for (name, _, fs, is_, es), (ok, out) in zip(shards, outs):
+        if not ok:
+            coq_failed = coq_failed or f"{name}: {out[-3000:]}"
+            continue
         parts = out.split(": list nat")
-        bad_f, bad_i, bad_e = (parse_nat_list(parts[0]), parse_nat_list(parts[1]), parse_nat_list(parts[2]))
+        bad_f += [fs[j] for j in parse_nat_list(parts[0])]
+        bad_i += [is_[j] for j in parse_nat_list(parts[1])]
+        bad_e += [es[j] for j in parse_nat_list(parts[2])]
 
     # ---- search on the real text: every compiled probe, single packs and the combined ones
     sq_vals = sqrt_values(ck.rng, tier)
@@ -980,6 +1234,7 @@ def main(tier: str) -> int:
     seeds_all = SEEDS + [ck.rng.randint(INT_MIN, INT_MAX) for _ in range(8 if tier == "quick" else 60)]
     sjobs, smeta = [], []
     first_sqrt = {}
+    searched_texts = set()
     for pack, res in zip(packs, results):
         if not res["ok"]:
             continue
@@ -1000,9 +1255,17 @@ def main(tier: str) -> int:
                     continue
                 sjobs.append((fns, ns, cert, fname, p, vals))
             else:
+                if p.get("matrix") and pack["single"] is not None:
+                    # spellings of one call that gave exactly the same files: one search (a spelling with other text gets its own)
+                    key = (ci, p["target"], eff_lo(p), eff_hi(p), p["wrapped"], tuple(sorted(fns.items())))
+                    if key in searched_texts:
+                        continue
+                    searched_texts.add(key)
                 n_extra = 1 if (tier == "quick" or pack["single"] is None) else 6
                 pairs = operand_values(p, ck.rng, n_extra)
                 seeds = seeds_all if pack["single"] is not None else seeds_all[:6]
+                if p.get("matrix") and pack["single"] is None:
+                    pairs, seeds = pairs[:4], seeds_all[:3]
                 sjobs.append((fns, ns, cert, fname, p, pairs, seeds))
             smeta.append((pack, fname, p))
     n_single_jobs = len(sjobs)
@@ -1020,7 +1283,7 @@ def main(tier: str) -> int:
             if fname == SEQ_TOP:
                 fname = cert["LOAD"]
             sjobs.append(("seq", fns, ns, cert, fname, items, seq_seeds, opsets))
-            smeta.append((pack, fname, dict(kind="sequence", items=items, src=job["src"])))
+            smeta.append((pack, fname, dict(kind="sequence", items=items, src=job["src"], header=job.get("header"))))
             n_seq_calls += sum(1 for e in seq_events(items) if e[0] == "call")
     with ProcessPoolExecutor(max_workers=max(1, min(NCPU, 8))) as ex:
         sres = list(ex.map(_search, sjobs, chunksize=4))
@@ -1037,7 +1300,8 @@ def main(tier: str) -> int:
             if key in reported or sum(1 for k in reported if k[0] == "sequence") >= 4:
                 continue
             reported.add(key)
-            ck.violation(dict(kind="sequence-semantic-failure", program=p["src"], jmc_txt=cert, namespace=NAMESPACES[pack["ci"]],
+            ck.violation(dict(kind="sequence-semantic-failure", program=p["src"], header=p.get("header"), jmc_txt=cert,
+                              namespace=NAMESPACES[pack["ci"]],
                               function=fname, items=p["items"], failure=fail, expected=fail.get("expected"), actual=fail.get("actual"),
                               note="the whole function (real emitted text) run in mcvm after __load__ from the given initial scores; "
                                    "the named call's target breaks its contract"))
@@ -1047,15 +1311,36 @@ def main(tier: str) -> int:
         if key in reported:
             continue
         reported.add(key)
-        src = jobs[packs.index(pack)]["src"]
-        ck.violation(dict(kind="semantic-failure", program=src, jmc_txt=cert, namespace=NAMESPACES[pack["ci"]],
+        job = jobs[packs.index(pack)]
+        ck.violation(dict(kind="semantic-failure", program=job["src"], header=job.get("header"), jmc_txt=cert, namespace=NAMESPACES[pack["ci"]],
                           function=fname, statement=probe_stmt(p, cert), probe=p, failure=fail,
                           expected=fail.get("expected"), actual=fail.get("actual"),
                           note="real emitted functions run in mcvm after __load__ from the given initial scores"))
 
+    # ---- metamorphic: all spellings of one call emit the same text
+    n_groups, n_members, diffs = spelling_groups(packs, results, jobs)
+    seen_styles = set()
+    for ref, m in diffs:
+        sk = (m["probe"].get("style"), ref["probe"].get("style"))
+        if sk in seen_styles or len(seen_styles) >= 3:
+            continue
+        seen_styles.add(sk)
+        cert = CERTS[m["pack"]["ci"]]
+        ck.violation(dict(kind="spelling-differs", jmc_txt=cert, namespace=NAMESPACES[m["pack"]["ci"]],
+                          program=m["job"]["src"], header=m["job"].get("header"), style=m["probe"].get("style"),
+                          reference_program=ref["job"]["src"], reference_header=ref["job"].get("header"),
+                          reference_style=ref["probe"].get("style"),
+                          expected=ref["text"], actual=m["text"],
+                          model_arguments=dict(target=m["probe"]["target"], min=list(eff_lo(m["probe"])), max=list(eff_hi(m["probe"])),
+                                               wrapped=m["probe"]["wrapped"]),
+                          note="two spellings of the same Math.random call (same target, effective min and max, same execute context) "
+                               "must emit the same functions: the model's text `random_code nm ex target lo hi` does not depend on the "
+                               "spelling; `expected` is what the reference spelling (the one most spellings agree with) emits, `actual` what this one "
+                               "emits — at least one of the two is not the model's text"))
+
     # ---- correspondence failures without a failing input
     if coq_failed is not None:
-        ck.violation(dict(kind="correspondence-file-failed", file="coq/Gen/C20/MathEmitted.v", log=coq_failed), no_input=True)
+        ck.violation(dict(kind="correspondence-file-failed", file="coq/Gen/C20/MathEmitted_*.v", log=coq_failed), no_input=True)
     silent, seen, silent_terms = [], set(), []
     for i in bad_f:
         d = fcases[i][1]
@@ -1064,13 +1349,15 @@ def main(tier: str) -> int:
         seen.add((d["role"], d.get("real")))
         silent.append(d)
         silent_terms.append(fcases[i][0])
-    try:   # what the model says for the first differing files
-        texts = eval_strings(PROP, COQ_HEADER + "\n".join(defs), [f"model_text ({t})" for t in silent_terms[:4]])
-        for d, m in zip(silent, texts):
-            d["model"] = m
-    except Exception as e:  # noqa
-        for d in silent[:1]:
-            d["model"] = "<could not evaluate the model: %s>" % str(e)[:300]
+    if silent_terms:
+        try:   # what the model says for the first differing files
+            exprs = [f"model_text ({t})" for t in silent_terms[:4]]
+            texts = eval_strings(PROP, COQ_HEADER + "\n".join(nm_defs + DEFS.used_by("\n".join(exprs))), exprs)
+            for d, m in zip(silent, texts):
+                d["model"] = m
+        except Exception as e:  # noqa
+            for d in silent[:1]:
+                d["model"] = "<could not evaluate the model: %s>" % str(e)[:300]
     silent += [icases[i][1] for i in bad_i if icases[i][1]["pack"] not in sem_failed_packs]
     silent_e = [echecks[i][1] for i in bad_e]
     if (silent or silent_e) and not ck.violations:
@@ -1083,24 +1370,48 @@ def main(tier: str) -> int:
 
     shapes = {(p["kind"], p["target"], str(p.get("arg")), str(p.get("lo")), str(p.get("hi")), p["wrapped"], p.get("style"))
               for p in probes}
-    hist = {}
+    hist, style_hist, layout_hist, literal_hist = {}, {}, {}, {}
     for p in probes:
         k = p["kind"] if p["kind"] == "sqrt" else f"random {eff_lo(p)[0]}/{eff_hi(p)[0]}" + (" aliased" if p["target"] in (p["lo"][1], p["hi"][1]) else "")
         k += " in-execute" if p["wrapped"] else ""
         hist[k] = hist.get(k, 0) + 1
+        if p["kind"] == "random":
+            st = p.get("style", "pos")
+            if st == "pos" and p["hi"][0] == "default":
+                st = "empty" if p["lo"][0] == "default" else "pos1"
+            elif st == "kw" and "default" in (p["lo"][0], p["hi"][0]):
+                st = "minonly" if p["hi"][0] == "default" else "maxonly"
+            style_hist[st] = style_hist.get(st, 0) + 1
+            layout_hist[STYLES[st][0]] = layout_hist.get(STYLES[st][0], 0) + 1
+            literal_hist[STYLES[st][1]] = literal_hist.get(STYLES[st][1], 0) + 1
+    n_matrix = sum(1 for p in probes if p.get("matrix"))
     ck.cov.update(dict(
         evaluations=len(fcases) + len(icases) + len(echecks),
-        distinct_nontrivial=len(shapes) * len(CERTS) + len({(pk["ci"], name, repr(items)) for pk in seq_packs for name, items in pk["order"]}),
+        evaluations_before_dedup=raw_cases,
+        distinct_nontrivial=sum(1 for _, d in fcases if not d["role"].startswith(("shared private function", "__load__", "unexpected"))),
+        distinct_inputs=len(shapes) * len(CERTS) + len({(pk["ci"], name, repr(items)) for pk in seq_packs for name, items in pk["order"]}),
         rule="a case = one emitted function file (call site, execute wrapper, shared private function, __load__ lines), one "
-             "integer-constant set or one expected compile error; per names configuration (2) every probe call alone and all "
-             "together; distinct_nontrivial = distinct (probe shape, names configuration) pairs + distinct (sequence function, names configuration) pairs; every probe exercises a branch "
-             "of the model (operand-kind combination, literal sign/INT_MIN, default/keyword form, aliasing, execute)",
-        samples=[dict(statement=probe_stmt(p, CERTS[0]), emitted=functions_of(results[i]["files"], NAMESPACES[0]).get("p"))
-                 for i, p in list(enumerate(probes))[:2] + list(enumerate(probes))[18:20] if results[i]["ok"]],
-        programs=len(jobs) + len(err_jobs) + len(seq_jobs), disagreements_checked=len(bad_f) + len(bad_i) + len(bad_e),
+             "integer-constant set or one expected compile error; identical (model term, emitted text) pairs are evaluated and counted once "
+             "(evaluations_before_dedup = with repetitions); per names configuration (2) every probe call alone and (all base probes, "
+             "a third of the spelling matrix in the quick tier) together; distinct_nontrivial = the evaluated cases that hold a call (call "
+             "site, execute wrapper, sequence function or block; pairwise distinct (model term, file name, emitted text) by construction; the "
+             "shared private functions and __load__ lines are not counted); distinct_inputs = distinct (probe shape incl. spelling, names "
+             "configuration) pairs + distinct (sequence function, names configuration) pairs; every probe exercises a branch "
+             "of the model (operand-kind combination, literal sign/INT_MIN, default/keyword form, aliasing, execute) or a spelling of one",
+        samples=[dict(statement=probe_stmt(p, CERTS[0]), header=jobs[i].get("header"), emitted=functions_of(results[i]["files"], NAMESPACES[0]).get("p"))
+                 for i, p in list(enumerate(probes))[:2] + list(enumerate(probes))[18:20] +
+                 [(i, p) for i, p in enumerate(probes) if p.get("matrix") and p.get("style") in ("kwblank", "macrokw", "minonly")][:3]
+                 if results[i]["ok"]],
+        programs=len(jobs) + len(err_jobs) + len(seq_jobs) + len(oq_jobs), disagreements_checked=len(bad_f) + len(bad_i) + len(bad_e),
         semantic_runs=n_runs, sqrt_values_checked=len(sq_vals), branch_histogram=hist,
+        spelling_histogram=style_hist, spelling_layouts=layout_hist, spelling_literal_forms=literal_hist,
+        spelling_matrix=dict(operand_combinations=len(matrix_combos(tier)), probes=n_matrix, groups_compared=n_groups,
+                             members_compared=n_members, differing=len(diffs), error_probe_spellings=len(ERROR_PROBES),
+                             rule="all spellings of one call (same names configuration, target, effective min/max, execute context) must emit "
+                                  "identical functions (compared in python, replay kind spelling-differs) and each the model's text (Coq)"),
+        coq_case_files=len(shards),
         sequence_packs=len(seq_packs), sequence_functions=sum(len(pk["order"]) for pk in seq_packs), sequence_calls=n_seq_calls,
-        sequence_rule="functions holding 2-4 Math.random/Math.sqrt calls (same/different ranges, operands, targets; repeated calls) with function "
+        sequence_rule="functions holding 2-4 Math.random/Math.sqrt calls (same/different ranges, operands, targets; repeated calls; various spellings) with function "
                       "calls, assignments, execute-wrapped calls, if/while blocks in between; expected text of every function and block = concatenation "
                       "of the model's text of each item; every function run in mcvm, every observable target checked",
         correspondence="parsed emitted terms = model terms (decided equality) and pr_cmds(parsed) = emitted text, for every file",
@@ -1110,10 +1421,45 @@ def main(tier: str) -> int:
 
 # ------------------------------------------------------------------ replay
 
+def _replay_job(src, header, cert, ns):
+    job = dict(src=src, cert=cert_text(cert), namespace=ns, timeout=60)
+    if header:
+        job["header"] = header
+    return job
+
+
+def replay_spelling(r) -> int:
+    cert, ns = r["jmc_txt"], r["namespace"]
+    a, b = compile_batch([_replay_job(r["reference_program"], r.get("reference_header"), cert, ns),
+                          _replay_job(r["program"], r.get("header"), cert, ns)])
+    def texts(res):
+        if not res["ok"]:
+            return {"<compile error>": str(res.get("exc"))}
+        fns = functions_of(res["files"], ns)
+        return {k: fns.get(k, "<missing function>") for k in r["expected"] if not k.startswith("<")} or {"p": fns.get("p")}
+    ta, tb = texts(a), texts(b)
+    print(f"repo: {REPO}\nreference spelling ({r.get('reference_style')}): {r['reference_program']}  header: {r.get('reference_header')!r}")
+    print(f"this spelling      ({r.get('style')}): {r['program']}  header: {r.get('header')!r}")
+    print("expected (what the reference spelling emits now):\n" + json.dumps(ta, indent=1))
+    print("actual (what this spelling emits now):\n" + json.dumps(tb, indent=1))
+    if ta != tb:
+        print("FAILS: two spellings of the same call emit different functions")
+        return 1
+    print("holds: both spellings emit the same functions")
+    return 0
+
+
 def replay(path) -> int:
     r = json.loads(open(path).read())
     if r.get("kind") == "sequence-semantic-failure":
         return replay_sequence(r)
+    if r.get("kind") == "spelling-differs":
+        return replay_spelling(r)
+    if r.get("kind") == "probe-does-not-compile":
+        res, = compile_batch([_replay_job(r["program"], r.get("header"), r["jmc_txt"], r["namespace"])])
+        print(f"program: {r['program']}\nheader: {r.get('header')!r}  repo: {REPO}\nexpected: {r['expected']}")
+        print("actual: compiles" if res["ok"] else f"actual: {res.get('exc')}: {res.get('msg', '')[:300]}")
+        return 0 if res["ok"] else 1
     if r.get("kind") != "semantic-failure":
         print(f"replay file {path} holds no concrete input (kind={r.get('kind')}); re-run ./check C20")
         print(json.dumps(r, indent=1)[:3000])
@@ -1121,8 +1467,8 @@ def replay(path) -> int:
     cert, ns, p, fail = r["jmc_txt"], r["namespace"], r["probe"], r["failure"]
     p["lo"] = tuple(p["lo"]) if p.get("lo") else None
     p["hi"] = tuple(p["hi"]) if p.get("hi") else None
-    res, = compile_batch([dict(src=r["program"], cert=cert_text(cert), namespace=ns, timeout=60)])
-    print(f"program: {r['program'][:400]}\nfunction: {r['function']}  init: {fail['init']}  repo: {REPO}")
+    res, = compile_batch([_replay_job(r["program"], r.get("header"), cert, ns)])
+    print(f"program: {r['program'][:400]}\nheader: {r.get('header')!r}\nfunction: {r['function']}  init: {fail['init']}  repo: {REPO}")
     if not res["ok"]:
         print(f"expected: compiles; actual: {res['exc']}: {res['msg'][:300]}")
         return 1
@@ -1167,7 +1513,7 @@ def _tuplify(items):
 def replay_sequence(r) -> int:
     cert, ns, fail = r["jmc_txt"], r["namespace"], r["failure"]
     items = _tuplify(r["items"])
-    res, = compile_batch([dict(src=r["program"], cert=cert_text(cert), namespace=ns, timeout=60)])
+    res, = compile_batch([_replay_job(r["program"], r.get("header"), cert, ns)])
     print(f"function {r['function']}: {' '.join(item_src(x, cert) for x in items)}\ninit: {fail['init']}  repo: {REPO}")
     if not res["ok"]:
         print(f"expected: compiles; actual: {res['exc']}: {res['msg'][:300]}")
